@@ -3,6 +3,7 @@ package main
 import (
 	"fmt"
 	"go/types"
+	"sort"
 	"strings"
 
 	"golang.org/x/tools/go/ssa"
@@ -272,12 +273,22 @@ func c19R4(e *Engine) {
 		}
 	}
 	// (b) GetItemInput: Key ← range value of Keys, TableName ← range key of RequestItems
-	var al *ssa.Alloc
-	instrs(bg, func(in ssa.Instruction) {
-		if x, ok := in.(*ssa.Alloc); ok && strings.HasSuffix(typeName(x.Type()), "GetItemInput") {
-			al = x
+	// the functions of the batch path (BatchGetItem and the package-local helpers it is factored into)
+	var batchFns []*ssa.Function
+	for g := range e.reach(bg) {
+		if e.fnRole(g) == role && g != get && !e.reach(get)[g] {
+			batchFns = append(batchFns, g)
 		}
-	})
+	}
+	sort.Slice(batchFns, func(i, j int) bool { return batchFns[i].Pos() < batchFns[j].Pos() })
+	var al *ssa.Alloc
+	for _, g := range batchFns {
+		instrs(g, func(in ssa.Instruction) {
+			if x, ok := in.(*ssa.Alloc); ok && strings.HasSuffix(typeName(x.Type()), "GetItemInput") {
+				al = x
+			}
+		})
+	}
 	if al == nil {
 		e.undecided("R4", "v2.Client.BatchGetItem:request", e.pos(bg.Pos()), "GetItemInput is not built as a composite in BatchGetItem")
 	} else {
@@ -291,11 +302,16 @@ func c19R4(e *Engine) {
 	}
 	// (c) unprocessed append only on the non-nil error edge; response append only on the nil edge
 	var helperCall *ssa.Call
-	instrs(bg, func(in ssa.Instruction) {
-		if c, ok := in.(*ssa.Call); ok && (c.Call.StaticCallee() == helper || c == gc) {
-			helperCall = c
+	for _, g := range batchFns {
+		if g == helper && helper != bg {
+			continue
 		}
-	})
+		instrs(g, func(in ssa.Instruction) {
+			if c, ok := in.(*ssa.Call); ok && (c.Call.StaticCallee() == helper || c == gc) {
+				helperCall = c
+			}
+		})
+	}
 	if helperCall == nil {
 		e.fail("R4", "v2.Client.BatchGetItem:unprocessed-only-on-error", e.pos(bg.Pos()), "dispatch call not found in BatchGetItem")
 		return
@@ -311,7 +327,8 @@ func c19R4(e *Engine) {
 	}
 	nUn, nResp := 0, 0
 	bad := ""
-	instrs(bg, func(in ssa.Instruction) {
+	loopFn := helperCall.Parent() // the function that iterates over the keys and dispatches each of them
+	instrs(loopFn, func(in ssa.Instruction) {
 		c, ok := in.(*ssa.Call)
 		if !ok || staticCalleeName(c) != "builtin.append" {
 			return
@@ -340,10 +357,22 @@ func c19R4(e *Engine) {
 	}
 	e.check(bad == "", "R4", "v2.Client.BatchGetItem:unprocessed-only-on-error", e.ipos(helperCall), "keys become unprocessed only on the error edge, items are returned only on the success edge %s", bad)
 	// (d) per-table accumulators: what is stored under a table's name is allocated for that table (inside the table loop)
+	// the dispatch as seen from BatchGetItem: the call itself, or the call of the helper that contains it
+	var topCall ssa.Instruction = helperCall
+	if loopFn != bg {
+		topCall = nil
+		instrs(bg, func(in ssa.Instruction) {
+			if c, ok := in.(*ssa.Call); ok && c.Call.StaticCallee() != nil && (c.Call.StaticCallee() == loopFn || e.reach(c.Call.StaticCallee())[loopFn]) && e.fnRole(c.Call.StaticCallee()) == role {
+				topCall = c
+			}
+		})
+	}
 	var outer map[*ssa.BasicBlock]bool
-	for _, body := range naturalLoops(bg) {
-		if body[helperCall.Block()] && (outer == nil || len(body) > len(outer)) {
-			outer = body
+	if topCall != nil {
+		for _, body := range naturalLoops(bg) {
+			if body[topCall.Block()] && (outer == nil || len(body) > len(outer)) {
+				outer = body
+			}
 		}
 	}
 	shared := ""
@@ -382,7 +411,10 @@ func c19R4(e *Engine) {
 			case *ssa.Call:
 				if staticCalleeName(x) == "builtin.append" {
 					walk(x.Call.Args[0])
+				} else if g := x.Call.StaticCallee(); g != nil && e.fnRole(g) == role && !outer[x.Block()] {
+					shared = "the result of one call of " + e.fname(g) + " at " + e.ipos(x) + " (outside the loop over tables) is stored under each table name at " + e.ipos(in)
 				}
+				// a helper called once per table hands back what it allocated for that call
 			case *ssa.Lookup:
 				// responses[table] read back: its own previous value
 			case *ssa.Extract:
